@@ -78,6 +78,39 @@ void run_width(const Case &c, pbt::Ctx &ctx) {
     if (!df.empty()) {
         ctx.fail("wrong-value", df + " text=" + jm::show(d.cps));
     }
+    // One caller-owned scratch stream for a history of parses (as the repository's own tests use it): a rejected text first, whose
+    // broken string had an escape, then the document, then the document again. What an earlier parse did must not show.
+    uint32_t h = 2166136261u;
+    for (uint8_t x : c.bytes) {
+        h = (h ^ x) * 16777619u;
+    }
+    if ((h & 1U) != 0) {
+        static const char *const broken[] = {"[\"xy\\tz", "{\"k\\n\":1,\"b\\u00e9", "[\"a\\qb\"]", "\"\\u00e9x", "[\"p\\u00zz\"]", "{\"q\\\"", "[1,\"ab\\", "[\"\\ud83d\\ude0"};
+        const char             *bad      = broken[(h >> 1) % (sizeof(broken) / sizeof(broken[0]))];
+        jm::Units               bu;
+        for (const char *t = bad; *t; ++t) {
+            bu.push_back((unsigned char)*t);
+        }
+        StringStream<Char_T> stream;
+        {
+            jm::Buf<Char_T> bb(bu);
+            Value<Char_T>   r = JSON::Parse(stream, bb.p, SizeT(bb.n));
+            if (!r.IsUndefined()) {
+                ctx.fail("broken-text-accepted", std::string("accepted: ") + bad);
+            }
+        }
+        for (int round = 0; round < 2; ++round) {
+            Value<Char_T> v2 = JSON::Parse(stream, b.p, SizeT(b.n));
+            if (v2.IsUndefined()) {
+                ctx.fail("valid-document-rejected-after-history", std::string("document rejected when parsed with the stream a rejected text (") + bad + ") had used: " + jm::show(d.cps));
+            }
+            df = jm::compare(v2, jm::denoted(d.tree), op);
+            if (!df.empty()) {
+                ctx.fail("wrong-value-after-history", df + " (same stream as the rejected text " + bad + " before; round " + std::to_string(round) + ") text=" + jm::show(d.cps));
+            }
+        }
+        ctx.label("stream-reused-after-rejected-text");
+    }
 }
 #else
 template <typename Char_T>
@@ -158,6 +191,113 @@ void run_width(const Case &c, pbt::Ctx &ctx) {
         }
     }
     ctx.label("bracket-variants", !d.st.closers.empty());
+    // ---- strings and their escapes (code-point level; the document is valid, so quotes delimit strings and a backslash starts an escape)
+    struct Span {
+        size_t              open, close;
+        std::vector<size_t> uesc; // offsets of the backslash of every \uXXXX escape
+    };
+    std::vector<Span> spans;
+    for (size_t i = 0; i < d.cps.size(); ++i) {
+        if (d.cps[i] != '"') {
+            continue;
+        }
+        Span sp;
+        sp.open = i;
+        for (++i; i < d.cps.size() && d.cps[i] != '"'; ++i) {
+            if (d.cps[i] == '\\') {
+                if (i + 1 < d.cps.size() && d.cps[i + 1] == 'u') {
+                    sp.uesc.push_back(i);
+                    i += 5;
+                } else {
+                    ++i;
+                }
+            }
+        }
+        sp.close = i;
+        spans.push_back(sp);
+    }
+    auto slice = [&](size_t a, size_t b) { return jm::Units(d.cps.begin() + long(a), d.cps.begin() + long(std::min(b, d.cps.size()))); };
+    auto cat   = [](jm::Units a, const jm::Units &b) {
+        a.insert(a.end(), b.begin(), b.end());
+        return a;
+    };
+    if (!spans.empty()) {
+        // (a) one string of the document as a document of its own: complete it is a value; no proper prefix of it is
+        const Span &sp  = spans[e.below(uint32_t(spans.size()))];
+        jm::Units   str = slice(sp.open, sp.close + 1);
+        if (parses_undefined<Char_T>(jm::encode(str, width))) {
+            ctx.label("top-level-string-not-accepted");
+        } else {
+            for (size_t n = 1; n < str.size(); ++n) {
+                if (str.size() > 300 && n > 150 && n + 150 < str.size()) {
+                    continue;
+                }
+                must_reject(jm::encode(slice(sp.open, sp.open + n), width), "string-prefix-accepted", "unterminated string as the whole text (" + std::to_string(n) + " of " + std::to_string(str.size()) + " code points)");
+            }
+            ctx.label("top-level-string-variants");
+        }
+        static const char     hexd[] = "0123456789abcdefABCDEF";
+        static const uint32_t bad[]  = {'"', 'g', ' ', ']', '\\', 'G', ':', '/', '@', '`', 'x', '}', ',', 0x0131, 0xFF11};
+        auto                  filler = [&](size_t n) {
+            jm::Units f;
+            for (size_t i = 0; i < n; ++i) {
+                f.push_back(e.chance(15) ? bad[e.below(13)] : uint32_t(hexd[e.below(22)]));
+            }
+            return f;
+        };
+        // (b) a \uXXXX escape with one digit replaced by something that is not a hex digit; and cut short after j digits with the
+        //     text that follows its string (closing quote first) moved up against it, filler, and that text again - what a decoder that
+        //     takes "four units" without looking at them would swallow and resynchronise on
+        std::vector<std::pair<const Span *, size_t>> escapes;
+        for (const Span &s2 : spans) {
+            for (size_t p : s2.uesc) {
+                escapes.push_back({&s2, p});
+            }
+        }
+        for (int pick = 0; pick < 3 && !escapes.empty(); ++pick) {
+            const auto  &es = escapes[e.below(uint32_t(escapes.size()))];
+            const size_t p  = es.second;
+            const size_t q  = es.first->close;
+            {
+                jm::Units m  = d.cps;
+                uint32_t  bu = bad[e.below(width >= 2 ? 15 : 13)];
+                m[p + 2 + e.below(4)] = bu;
+                must_reject(jm::encode(m, width), "damaged-escape-accepted", "a hex digit of the escape at code point " + std::to_string(p) + " replaced by U+" + std::to_string(bu));
+            }
+            for (int rep = 0; rep < 4; ++rep) {
+                const size_t j = e.below(4);
+                const size_t k = 1 + e.below(6);
+                jm::Units    t = cat(cat(cat(slice(0, p + 2 + j), slice(q, q + k)), filler(e.below(7))), slice(q, d.cps.size()));
+                must_reject(jm::encode(t, width), "short-escape-accepted", "escape at code point " + std::to_string(p) + " cut after " + std::to_string(j) + " digits, then the string's end");
+            }
+        }
+        ctx.label("escape-damage-variants", !escapes.empty());
+        // (c) the first half of a surrogate pair alone at the end of a string, then the text that follows the string, filler, and that
+        //     text again. Whether a lone half is taken or refused is not C07's business; the text around it is: without the escape the
+        //     text must be one the reference parser refuses (then no reading of the escape makes it a complete value).
+        jm::RefParser rp0(units, width);
+        jm::Node      n0;
+        if (rp0.parse_document(n0)) {
+            size_t asked = 0;
+            for (int rep = 0; rep < 6; ++rep) {
+                const Span  &s3 = spans[e.below(uint32_t(spans.size()))];
+                const size_t q  = s3.close;
+                const size_t k  = 1 + e.below(6);
+                jm::Units    hi = {'\\', e.chance(10) ? uint32_t('U') : uint32_t('u'), e.chance(50) ? uint32_t('d') : uint32_t('D'), uint32_t("89abAB"[e.below(6)]), uint32_t(hexd[e.below(22)]), uint32_t(hexd[e.below(22)])};
+                jm::Units    fl = filler(e.below(7));
+                jm::Units    rest = cat(cat(slice(q, q + k), fl), slice(q, d.cps.size()));
+                jm::Units    without = jm::encode(cat(slice(0, q), rest), width);
+                jm::RefParser rp(without, width);
+                jm::Node      nn;
+                if (rp.parse_document(nn)) {
+                    continue;
+                }
+                ++asked;
+                must_reject(jm::encode(cat(cat(slice(0, q), hi), rest), width), "lone-surrogate-swallows-text", "first half of a surrogate pair before the closing quote at code point " + std::to_string(q) + ", then trailing text");
+            }
+            ctx.label("lone-surrogate-variants", asked != 0);
+        }
+    }
     ctx.evaluations += variants; // every variant is one parse against the oracle
 }
 #endif
